@@ -163,27 +163,32 @@ Section Node.
      (match t_to t with [] => false | _ => true end && forallb (slip_valid u) (t_from t))).
 
   (* the final sweep: all valid, no value input (Bound excepted) twice, fee transactions skipped *)
+  Definition valuable (s : slip) : bool := negb (s_amt s =? 0) && negb (is_bound s).
+  Fixpoint add_keys (seen ks : list slip) : option (list slip) :=
+    match ks with
+    | [] => Some seen
+    | k :: r => if existsb (slip_eqb k) seen then None else add_keys (k :: seen) r
+    end.
   Fixpoint vsweep (u : list slip) (seen : list slip) (l : list tx) : bool :=
     match l with
     | [] => true
     | t :: r =>
         if negb (tx_valid u t) then false
         else if t_ty t =? TFee then vsweep u seen r
-        else
-          let ks := filter (fun s => negb (s_amt s =? 0) && negb (is_bound s)) (t_from t) in
-          (fix chk (seen : list slip) (ks : list slip) : bool :=
-             match ks with
-             | [] => vsweep u seen r
-             | k :: ks' => if existsb (slip_eqb k) seen then false else chk (k :: seen) ks'
-             end) seen ks
+        else match add_keys seen (filter valuable (t_from t)) with
+             | Some seen' => vsweep u seen' r
+             | None => false
+             end
     end.
 
   (* ---------- Block::validate (validate_against_utxo = true) ---------- *)
-  Definition validate_m (md : amode) (st : state) (b : block) : res bool :=
+  Definition no_tx_reject (st : state) (b : block) : bool :=
+    match b_txs b, st_chain st with
+    | [], _ :: _ => negb (h_id (b_hdr b) =? 1)
+    | _, _ => false
+    end.
+  Definition validate_body (md : amode) (st : state) (b : block) : res bool :=
     let h := b_hdr b in
-    match b_txs b, negb (h_id h =? 1), st_chain st with
-    | [], true, _ :: _ => Ok false
-    | _, _, _ =>
     if negb (b_sig_ok b) then Ok false else
     do c <- run_cv md st (cv_input cf st (h_id h) (h_ts h) (h_treasury h) (b_txs b) (b_bf_calc b) (b_orc b));
     if negb (c_total_fees c =? h_total_fees h) then Ok false else
@@ -244,8 +249,9 @@ Section Node.
       | _, _ => true
       end in
     if negb fee_ok then Ok false else
-    Ok (vsweep (st_utxo st) [] (b_txs b))
-    end.
+    Ok (vsweep (st_utxo st) [] (b_txs b)).
+  Definition validate_m (md : amode) (st : state) (b : block) : res bool :=
+    if no_tx_reject st b then Ok false else validate_body md st b.
   Definition validate := validate_m mode.
 
   (* ---------- check_total_supply ---------- *)
@@ -297,7 +303,6 @@ Section Node.
 End Node.
 
 (* ---------- the supply of property C02, in unbounded N ---------- *)
-Definition sumN (l : list N) : N := fold_right N.add 0 l.
 Definition utxo_value (gp tipid : N) (u : list slip) : N :=
   sumN (map s_amt (filter (fun s => negb (is_bound s) && ((tipid - gp) <=? s_bid s)) u)).
 Definition reservoirs (h : hdr) : N :=
